@@ -31,7 +31,8 @@ RULE = ("cases = (2-4 datasets created in index order with the main dataset at a
         "scripted failure of the k-th sink call, 'repeat until the token stops moving')); plus two engineered families: one "
         "dependency entity connected to 3-4 main entities (fan-out > batch size) touched once, the sink failing at call 0..3, job "
         "restarted to the fixpoint; and a scripted write to the dependency dataset from inside the sink callback after call k of a "
-        "multi-page full sync, then runs to the fixpoint; a case is non-trivial when an "
+        "multi-page full sync, then runs to the fixpoint; and LatestOnly sources whose look-back entry (the change at token - 1) is "
+        "superseded by a rewiring / unlinking / deletion of the same dependency entity (outgoing first hop); a case is non-trivial when an "
         "incremental run delivered entities found through a dependency or a scripted failure fired; distinct = distinct case tuples")
 TRUSTED = [
     "Store.GetRelatedAtTime (with its continuation paging at limit = batch size) is specified, not modelled: related(e) at instant t "
@@ -122,6 +123,10 @@ def witness_cases():
         mk(2, 0, [D(1, J(0, 1, True))],
            [W(0, [(1, [(1, 11)], 0), (2, [], 0), (3, [], 0)]), W(1, [(11, [], 0)]),
             R(full=True, mid=(0, 1, [(11, [], 0)])), R(fix=True)], batch=1),
+        # plain behaviour: LatestOnly, the entity at token - 1 is rewired: the main entity linked at the previous run is emitted
+        mk(2, 0, [D(1, J(0, 1, False))],
+           [W(0, [(1, [], 0), (2, [], 0), (3, [], 0)]), W(1, [(11, [(1, 1)], 0)]), R(), W(1, [(11, [(1, 2)], 0)]),
+            R(fix=True)], batch=2, latest=True),
         # plain behaviour: fan-out 3 > batch 1, sink fails at its 2nd call, restart
         mk(2, 0, [D(1, J(0, 1, True))],
            [W(0, [(1, [(1, 11)], 0), (2, [(1, 11)], 0), (3, [(1, 11)], 0)]), W(1, [(11, [], 0)]), R(),
@@ -272,19 +277,65 @@ def midfull_case(rng):
     return mk(2, 0, deps, ops, batch=rng.choice([1, 1, 2, 2, 3]), latest=False)
 
 
+def lookback_case(rng):
+    """LatestOnly (mostly): the dependency dataset holds few changes, the job catches up, then the entity whose change
+    is the last one below the token is rewired / unlinked / deleted (outgoing first hop), possibly with other changes
+    around it; runs to the fixpoint.  The look-back entry (token - 1) is then a superseded change."""
+    mains = [1, 2, 3]
+    p = rng.range(1, 3)
+    two = rng.chance(1, 3)
+    deps = [D(1, J(0, p, False))] if not two else [D(1, J(2, p, False), J(0, 1, rng.chance(1, 2)))]
+    nds = 3 if two else 2
+    tgt_ds = 2 if two else 0
+    rl = roles(deps)
+
+    def dep_ent(i):
+        ts = []
+        for _ in range(rng.choice([0, 1, 1, 2])):
+            t = rng.choice(ids_of(tgt_ds))
+            if (p, t) not in ts:
+                ts.append((p, t))
+        return (i, ts, 1 if rng.chance(1, 10) else 0)
+    ops = [W(0, [(m, [], 0) for m in mains])] if not (two and deps[0]["joins"][1]["inv"]) else [rand_write(rng, 0, rl, nds)]
+    if two:
+        ops.append(rand_write(rng, 2, rl, nds))
+    first = [dep_ent(i) for i in ([11] if rng.chance(1, 2) else [12, 11])]
+    for e in first:
+        ops.append(W(1, [e]))
+    ops.append(R())
+    if rng.chance(1, 2):
+        ops.append(R())
+    for _ in range(rng.range(1, 3)):
+        # the entity written last is the one at token - 1
+        ops.append(W(1, [dep_ent(11)]))
+        if rng.chance(1, 3):
+            ops.append(W(1, [dep_ent(12)]))
+        ops.append(R(fix=True) if rng.chance(1, 2) else R())
+    ops.append(R(fix=True))
+    return mk(nds, 0, deps, ops, batch=rng.choice([1, 2, 3, 4]), latest=not rng.chance(1, 5))
+
+
 def gen(rng, tier):
     if tier == "quick":
-        return ([rand_case(rng) for _ in range(130)] + [fanout_case(rng) for _ in range(30)]
-                + [midfull_case(rng) for _ in range(30)])
+        return ([rand_case(rng) for _ in range(120)] + [fanout_case(rng) for _ in range(25)]
+                + [midfull_case(rng) for _ in range(25)] + [lookback_case(rng) for _ in range(30)])
     if tier == "search":
-        return ([rand_case(rng, 14) for _ in range(200)] + [fanout_case(rng) for _ in range(60)]
-                + [midfull_case(rng) for _ in range(60)])
-    return ([rand_case(rng, 16) for _ in range(2200)] + [fanout_case(rng) for _ in range(300)]
-            + [midfull_case(rng) for _ in range(300)])
+        return ([rand_case(rng, 14) for _ in range(180)] + [fanout_case(rng) for _ in range(50)]
+                + [midfull_case(rng) for _ in range(50)] + [lookback_case(rng) for _ in range(80)])
+    return ([rand_case(rng, 16) for _ in range(2100)] + [fanout_case(rng) for _ in range(300)]
+            + [midfull_case(rng) for _ in range(300)] + [lookback_case(rng) for _ in range(400)])
 
 
 def run(binp, cases):
-    return vlib.run_driver(binp, cases, died_obs={"runs": [], "lens": [], "core": [], "core0": 0, "feeds": [], "deps": []})
+    died = {"runs": [], "lens": [], "core": [], "core0": 0, "feeds": [], "deps": []}
+    obs = vlib.run_driver(binp, cases, died_obs=died)
+    # A producer goroutine that processDependency leaves behind after a sink error can outlive its case and bring the
+    # driver process down while a LATER case runs: a case reported as died is run once more, alone, in a fresh process
+    # (a death caused by the case itself repeats there and is reported).
+    for i, o in enumerate(obs):
+        if o.get("outcome") == "died":
+            obs[i] = vlib.run_driver(binp, [cases[i]], died_obs=died)[0]
+    return obs
 
 
 # ------------------------------------------------------------------------------------------- Coq terms
@@ -376,6 +427,36 @@ def effective(c, o):
     return o.get("deps") or c["deps"]
 
 
+def _skipped_pending(c, o, deps):
+    lens = o.get("lens") or []
+    feeds = o.get("feeds") or []
+    runs = o.get("runs") or []
+    out_first = set(d["ds"] for d in deps if d["joins"] and not d["joins"][0]["inv"])
+    tok = {}          # dependency tokens persisted before the next run (absent = 0 / full sync first)
+    have_token = False
+    ri = 0
+    for i, op in enumerate(c["ops"]):
+        if op["op"] != "run":
+            continue
+        rs = runs[ri] if ri < len(runs) else []
+        ri += 1
+        before = lens[i - 1] if (i > 0 and i - 1 < len(lens)) else [0] * c["nds"]
+        for r in rs:
+            if have_token and not (op.get("full") and not op.get("fix")):
+                for k in out_first:
+                    if k >= len(feeds) or k >= len(before):
+                        continue
+                    f = feeds[k][:before[k]]
+                    t = tok.get(k, 0)
+                    for p in range(max(t, 0), len(f)):
+                        if any(w["id"] == f[p]["id"] for w in f[p + 1:]):
+                            return True
+            if r.get("main", -1) >= 0:
+                have_token = True
+                tok = dict((k, z) for (k, z) in (r.get("deps") or []))
+    return False
+
+
 def attribute(c, o):
     """signature of the recorded findings (which deviation can explain a spec failure of this case)"""
     deps = effective(c, o)
@@ -404,7 +485,9 @@ def attribute(c, o):
     failed = any(r.get("outcome") == "failed" for rs in runs for r in rs)
     if len(set(dss)) < len(dss) and (shared_out or failed):
         return "F18a"
-    if c.get("latest"):
+    # F18d: LatestOnly, and some run started with a superseded change of a dependency entity (first hop outgoing)
+    # at or after its token, i.e. a change that LatestOnly skips
+    if c.get("latest") and _skipped_pending(c, o, deps):
         return "F18d"
     # F18b: a write batch with several entities to a dependency dataset whose first hop is outgoing
     out_first = set(d["ds"] for d in deps if d["joins"] and not d["joins"][0]["inv"])
